@@ -100,6 +100,79 @@ func runC16(c *Ctx) {
 	c16NullSafe(c, d)
 	nullDefinition(c, "C16.null-definition")
 	c16Normalise(c, d)
+	c16AssertOrigin(c)
+}
+
+// c16AssertOrigin: the parser sets SelectorExpression.Assert from the selector token consumed for
+// this very member access (not from a value carried over from an earlier iteration of the loop).
+func c16AssertOrigin(c *Ctx) {
+	const rule = "C16.assert-flag-origin"
+	ro := c.Roles()
+	if len(ro.Missing) > 0 || ro.MemberRest == nil {
+		c.R.Undecided(rule, "parser roles", "-", "member-access parser not found")
+		return
+	}
+	f := ro.MemberRest
+	exdot := c.SK("SK_ExclamationDot")
+	loops := naturalLoops(f)
+	n := 0
+	instrs(f, func(b *ssa.BasicBlock, i int, in ssa.Instruction) {
+		st, ok := in.(*ssa.Store)
+		if !ok {
+			return
+		}
+		fa, ok := st.Addr.(*ssa.FieldAddr)
+		if !ok || typeName(fa.X.Type()) != "SelectorExpression" || fieldName(fa) != "Assert" {
+			return
+		}
+		n++
+		good := false
+		why := "the flag is " + describeValue(st.Val)
+		if bo, isB := st.Val.(*ssa.BinOp); isB && bo.Op == token.NEQ && isNilConst(bo.Y) {
+			good = true
+			// every non-nil source is a conditional consumer of `!.` in this iteration; no loop-carried value
+			seen := map[ssa.Value]bool{}
+			var walk func(v ssa.Value)
+			walk = func(v ssa.Value) {
+				if seen[v] {
+					return
+				}
+				seen[v] = true
+				switch x := v.(type) {
+				case *ssa.Phi:
+					for _, l := range loops {
+						if x.Block() == l.Header {
+							good = false
+							why = "the tested token is carried over from the previous iteration of the member-access loop: one `!.` makes every later `.` of the chain asserting"
+						}
+					}
+					for _, e := range x.Edges {
+						walk(e)
+					}
+				case *ssa.Const:
+					if x.Value != nil {
+						good = false
+					}
+				case *ssa.Call:
+					okCall := false
+					for _, a := range x.Call.Args {
+						if k, isK := constIntArg(a); isK && k == exdot && typeName(a.Type()) == "SyntaxKind" {
+							okCall = true
+						}
+					}
+					if !okCall {
+						good = false
+						why = "the flag is derived from a call that does not consume `!.`"
+					}
+				default:
+					good = false
+				}
+			}
+			walk(bo.X)
+		}
+		c.R.Check(rule, "store#"+itoa(n), c.P.InstrPos(in), good, "Assert must be true exactly when this member access was written with `!.`; "+why)
+	})
+	c.R.Floor(rule, 1)
 }
 
 func c16Lookup(c *Ctx, d *Dispatcher) {
@@ -650,6 +723,23 @@ func runC20(c *Ctx) {
 		}
 	})
 	c.R.Check(rn, "SetThis-takes-parameter", c.P.Pos(setThis.Pos()), fromParam, "replacing the data map must install (or copy) the map given by the caller")
+	// ... and it must REPLACE: on every path the field receives the parameter itself or a newly made map
+	replaces := func(in ssa.Instruction) bool {
+		st, ok := in.(*ssa.Store)
+		if !ok {
+			return false
+		}
+		fa, ok := st.Addr.(*ssa.FieldAddr)
+		if !ok || fieldName(fa) != "this" {
+			return false
+		}
+		if st.Val == ssa.Value(setThis.Params[1]) {
+			return true
+		}
+		_, isMake := st.Val.(*ssa.MakeMap)
+		return isMake
+	}
+	c.R.Check(rn, "SetThis-replaces", c.P.Pos(setThis.Pos()), !pathExists(setThis, nil, isReturn, replaces, nil), "there is a path through SetThis on which the previous data map is kept (entries of the old map, earlier `$` locals included, survive the replacement)")
 	// SetThisValue: nil -> fresh map, then exactly this[key] = value
 	for _, isNil := range []bool{true, false} {
 		r := c.foldWith(setThisValue, 0, pinNilCompareOfField("this", isNil))
